@@ -40,9 +40,10 @@ class _Return(Exception):
 
 
 class _Raise(Exception):
-    def __init__(self, name, detail=None):
+    def __init__(self, name, detail=None, cls=None):
         self.name = name
         self.detail = detail
+        self.cls = cls
 
 
 class _Abandon(Exception):
@@ -342,10 +343,14 @@ class Interp:
                 raise Unsupported("bare raise")
             exc = s.exc
             if isinstance(exc, ast.Call):
-                name = self._exc_name(exc.func, fr)
+                cls = self._expr(exc.func, fr)
             else:
-                name = self._exc_name(exc, fr)
-            raise _Raise(name)
+                cls = self._expr(exc, fr)
+            if isinstance(cls, Opaque) and cls.tag == "exception":
+                raise Unsupported("re-raise of a caught exception object")
+            if not (inspect.isclass(cls) and issubclass(cls, BaseException)):
+                raise Unsupported(f"raise of {cls!r}")
+            raise _Raise(cls.__name__, cls=cls)
         if isinstance(s, ast.If):
             if self.decide(self.truth(self._expr(s.test, fr))):
                 self._block(s.body, fr)
@@ -362,6 +367,29 @@ class Interp:
                 self._assign(s.target, self._expr(s.value, fr), fr)
             return
         if isinstance(s, ast.Assert):
+            return
+        if isinstance(s, ast.Try):
+            if s.finalbody:
+                raise Unsupported("try/finally")
+            try:
+                self._block(s.body, fr)
+            except _Raise as r:
+                import builtins
+
+                cls = r.cls or getattr(builtins, r.name, None)
+                for h in s.handlers:
+                    if h.type is None:
+                        match = True
+                    else:
+                        types = self._expr(h.type, fr)
+                        match = cls is not None and inspect.isclass(cls) and issubclass(cls, types)
+                    if match:
+                        if h.name:
+                            fr.env[h.name] = Opaque("exception")
+                        self._block(h.body, fr)
+                        return
+                raise
+            self._block(s.orelse, fr)
             return
         if isinstance(s, ast.For):
             it = self._expr(s.iter, fr)
@@ -440,6 +468,8 @@ class Interp:
                 return (not t) if isinstance(t, bool) else z3.Not(t)
             if isinstance(n.op, ast.USub):
                 return -v
+            if isinstance(n.op, ast.Invert) and isinstance(v, FD):
+                return self.call_function(_fd_class_attr(v, "__invert__"), [v], {})
             raise Unsupported("unary op")
         if isinstance(n, ast.BoolOp):
             # python semantics: short circuit, value of the deciding operand; we only need truth values
@@ -472,6 +502,17 @@ class Interp:
             return result
         if isinstance(n, ast.BinOp):
             a, b = self._expr(n.left, fr), self._expr(n.right, fr)
+            dunder = {ast.BitOr: "__or__", ast.BitAnd: "__and__", ast.BitXor: "__xor__"}.get(type(n.op))
+            if dunder and (isinstance(a, FD) or isinstance(b, FD)):
+                owner = a if isinstance(a, FD) else b
+                if not isinstance(a, FD):
+                    cls = type(a)
+                    meth = getattr(cls, dunder, None)
+                    if meth is None or not inspect.isfunction(meth):
+                        raise Unsupported(f"{dunder} of {cls}")
+                else:
+                    meth = _fd_class_attr(owner, dunder)
+                return self.call_function(meth, [a, b], {})
             if isinstance(a, (Opaque,)) or isinstance(b, (Opaque,)):
                 return Opaque("binop")
             if isinstance(n.op, ast.Add):
@@ -498,6 +539,9 @@ class Interp:
                 obj = self._expr(n.func.value, fr)
                 if hasattr(obj, "pz_call"):
                     return obj.pz_call(self, n.func.attr, args, kwargs)
+                if isinstance(obj, FD):
+                    meth = _fd_class_attr(obj, n.func.attr)
+                    return self.call_function(meth, [obj, *args], kwargs)
                 fn = self._getattr(obj, n.func.attr)
             else:
                 fn = self._expr(n.func, fr)
@@ -538,6 +582,17 @@ class Interp:
             if isinstance(op, ast.GtE):
                 return a >= b
         raise Unsupported(f"comparison {type(op).__name__} of {a!r}, {b!r}")
+
+
+def _fd_class_attr(fd: "FD", name: str):
+    classes = {type(m) for m in fd.domain}
+    if len(classes) != 1:
+        raise Unsupported(f"attribute {name} of a mixed-class finite domain")
+    (cls,) = classes
+    meth = getattr(cls, name, None)
+    if meth is None or not inspect.isfunction(meth):
+        raise Unsupported(f"attribute {name} of {cls}")
+    return meth
 
 
 class _Frame:
